@@ -97,6 +97,9 @@ class GradientEvaluations(ResultField):
         self.perturbed_variables = _immutable_copy(self.perturbed_variables)
         self.perturbed_objectives = _immutable_copy(self.perturbed_objectives)
         self.perturbed_constraints = _immutable_copy(self.perturbed_constraints)
+        self.evaluation_info = {
+            key: _immutable_copy(value) for key, value in self.evaluation_info.items()
+        }
 
     @classmethod
     def create(
